@@ -1,9 +1,9 @@
 (* C13 — A crash during Commit never corrupts the store. Statements only.
-   The crash points are enumerated IN the theorem: [units] are the substore's atomic write
-   batches, a crash leaves any prefix of them on disk. Physical atomicity of one tm-db batch is
+   The crash points are enumerated IN the theorems: [units] are a substore's atomic write batches, a crash
+   leaves any prefix of them on disk; for the multistore the crash budget counts the units over all substores. Physical atomicity of one tm-db batch is
    the library's contract (hypothesis of the model). *)
 From Coq Require Import List ZArith NArith Bool Permutation.
-From PM Require Import Base.Bytes Store.KV Store.MergeProofs Store.RootMulti Store.RootMultiProofs.
+From PM Require Import Base.Bytes Store.KV Store.MergeProofs Store.RootMulti Store.RootMultiProofs Store.MultiCrash.
 Import ListNotations.
 Local Open Scope Z_scope.
 
@@ -14,6 +14,18 @@ Theorem C13_substore_crash_safe p t old tf units : 1 <= keep_recent p -> tree_ok
   forall u, In u (t :: units) -> load_version (t_disk u) (t_ver t) =
     (if t_ver t =? 0 then load_version (t_disk u) 0 else Some {| t_disk := t_disk u; t_work := old; t_ver := t_ver t |}).
 Proof. exact (store_commit_crash_safe p t old tf units). Qed.
+(* THE WHOLE MULTISTORE, any number of substores, any crash point: if rootmulti.Commit is cut short anywhere (any
+   number of write units of any substore reached the disk; the root's own flush, the last unit, did not), reopening
+   gives every substore at the OLD version with its OLD content - exactly the store as it was before the commit *)
+Theorem C13_multistore_crash_safe ms ci olds budget ms' : 1 <= keep_recent (ms_prune ms) -> consistent ms ci olds ->
+  commit ms budget = Some (ms', true) ->
+  exists ms2, reopen ms' = Some ms2 /\ ms_latest ms2 = ms_latest ms /\ fst (ms_last ms2) = ms_latest ms /\
+    Forall2 (fun l no => fst l = fst (fst no) /\ t_work (snd l) = snd no /\ t_ver (snd l) = t_ver (snd (fst no)))
+            (ms_trees ms2) (combine (ms_trees ms) olds).
+Proof. exact (multistore_crash_safe ms ci olds budget ms'). Qed.
+Example C13_ex_premises : consistent ex_ms1 [([1]%N, (1, [([10]%N, [11]%N)])); ([2]%N, (1, [([20]%N, [21]%N)]))]
+                                     [[([10]%N, [11]%N)]; [([20]%N, [21]%N)]].
+Proof. exact ex_ms1_consistent. Qed.
 (* the full statement is FALSE of the code as it is: with keepRecent = 0 (PruneEverything, the
    zero-value default) the version the root still points at is deleted before the flush (finding F8) *)
 Theorem C13_refuted_for_keep_recent_0 :
@@ -42,4 +54,5 @@ Example C13_ex_all_crash_points :
   | _ => False end.
 Proof. vm_compute. reflexivity. Qed.
 Print Assumptions C13_substore_crash_safe.
+Print Assumptions C13_multistore_crash_safe.
 Print Assumptions C13_refuted_for_keep_recent_0.
